@@ -678,7 +678,7 @@ def run(ctx, report):
         cc = cc_of_name(ccref, name)
         if cc and name not in ('jmp', 'jmpf', 'jecxz', 'setalc'):
             rname = families[cc[0]]
-        e = eff.get(rname)
+        e = eff.get('%s/%d' % (rname, len(inst.args or []))) or eff.get(rname)
         if e is None or e['ext']:
             continue
         for dec, tmpl in inst.results:
